@@ -51,7 +51,15 @@ class MyErr(Exception):
     pass
 
 
+class EmptyBatchError(Exception):
+    """an aggregate error that reports its number of sub-errors through len(): raised with none, the INSTANCE is falsy"""
+
+    def __len__(self) -> int:
+        return 0
+
+
 EXC: Dict[str, type] = {
+    "EmptyBatchError": EmptyBatchError,
     "ValueError": ValueError,
     "MyErr": MyErr,
     "KeyboardInterrupt": KeyboardInterrupt,
